@@ -17,6 +17,7 @@ import (
 //   - the assembler events of every compilation (Operator.Run) against AsmShape,
 //   - the (line, kind) pairs of the parser against Classify, the formatter's depth events,
 //   - the (before, after) pairs of the clean-up passes against Cleanup!Pipeline.
+//
 // The tests call processors directly as well (no Operator.Run around them): events outside a run
 // are not part of the run machine and are dropped before validation.
 // The outcome of the tests themselves is not looked at here (bin/baseline does that).
